@@ -38,6 +38,17 @@ type c05Case struct {
 	StopAfter int      `json:"stop_after"`
 	ErrAfter  int      `json:"backend_error_after"`
 	Allowed   []string `json:"allowed,omitempty"`
+	Gen       int      `json:"generated_items,omitempty"` // Items = t00000 .. t<Gen-1> (kept out of the artefact)
+}
+
+func (c c05Case) expand() c05Case {
+	if c.Gen > 0 && len(c.Items) == 0 {
+		c.Items = make([]string, c.Gen)
+		for i := range c.Items {
+			c.Items[i] = fmt.Sprintf("t%05d", i)
+		}
+	}
+	return c
 }
 
 const c05Prefix = "p"
@@ -219,8 +230,43 @@ func c05Overlap(r *vcore.Run, c c05Case, reg ociregistry.Interface) {
 	})
 }
 
+// c05Rerun runs one iterator value three times (fully, stopped after one item, fully): a listing
+// value describes a listing, it is not a cursor.
+func c05Rerun(r *vcore.Run, c c05Case) {
+	fp := fmt.Sprintf("C05/%s/%s/same-iterator-run-again", c.Kind, c.Stack)
+	reg := c05Build(c)
+	ctx := context.Background()
+	repo := "r"
+	if strings.Contains(c.Stack, "sel") {
+		repo = "a"
+	}
+	r.Guard("list", fp, c, func() {
+		var again string
+		switch c.Kind {
+		case "repos":
+			_, _, _, again = consumeAgain(reg.Repositories(ctx, c.After), func(s string) string { return s })
+		case "tags":
+			_, _, _, again = consumeAgain(reg.Tags(ctx, repo, c.After), func(s string) string { return s })
+		case "referrers":
+			_, _, _, again = consumeAgain(reg.Referrers(ctx, repo, c12Dig, ""), descText)
+		}
+		if again != "" {
+			r.Violate("list", fp, c, "every run of the same iterator value delivers the same listing", again)
+		}
+	})
+}
+
 func c05Run(r *vcore.Run, c c05Case) {
+	art := c // the artefact keeps the generator, not 10 000 names
+	c = c.expand()
 	fp := fmt.Sprintf("C05/%s/%s", c.Kind, c.Stack)
+	if c.StopAfter == 0 && c.ErrAfter < 0 && !(c.ServerMax > 0 && c.ClientN > c.ServerMax) {
+		c05Rerun(r, c)
+	}
+	if art.Gen > 0 {
+		c05RunBig(r, art, c)
+		return
+	}
 	reg := c05Build(c)
 	if (c.Stack == "mem" || c.Stack == "http1-mem" || c.Stack == "rec") && c.Kind != "referrers" && c.StopAfter == 0 && c.ErrAfter < 0 && c.After == "" && !(c.ServerMax > 0 && c.ClientN > c.ServerMax) {
 		c05Overlap(r, c, reg)
@@ -325,6 +371,42 @@ func c05Run(r *vcore.Run, c c05Case) {
 	if res.Post != "" {
 		r.Violate("list", fp+"/consumer-called-after-stop-or-error", c, "no further calls", res.Post)
 	}
+}
+
+// c05RunBig: listings longer than any page size the server would choose by itself.
+func c05RunBig(r *vcore.Run, art, c c05Case) {
+	fp := fmt.Sprintf("C05/%s/%s/big", c.Kind, c.Stack)
+	reg := c05Build(c)
+	r.Guard("list", fp, art, func() {
+		var items []string
+		var err error
+		if c.Kind == "repos" {
+			items, err = ociregistry.All(reg.Repositories(context.Background(), c.After))
+		} else {
+			items, err = ociregistry.All(reg.Tags(context.Background(), "r", c.After))
+		}
+		want := c05Want(c)
+		switch {
+		case err != nil:
+			r.Violate("list", fp+"/unexpected-error", art, fmt.Sprintf("%d items", len(want)), err.Error())
+		case len(items) != len(want):
+			r.Violate("list", fp+"/silently-short", art, fmt.Sprintf("%d items", len(want)), fmt.Sprintf("%d items, last %q", len(items), lastOf(items)))
+		default:
+			for i := range items {
+				if items[i] != want[i] {
+					r.Violate("list", fp+"/wrong-item", art, want[i], fmt.Sprintf("item %d = %q", i, items[i]))
+					return
+				}
+			}
+		}
+	})
+}
+
+func lastOf(xs []string) string {
+	if len(xs) == 0 {
+		return ""
+	}
+	return xs[len(xs)-1]
 }
 
 func c05Cases(thorough bool) []c05Case {
@@ -482,6 +564,20 @@ func c05Cases(thorough bool) []c05Case {
 			for n := 0; n <= 4; n++ {
 				for _, stack := range []string{"rec", "http1", "http2", "dbg-http1-dbg"} {
 					add(c05Case{Kind: kind, Stack: stack, Items: plain[:n], ClientN: 2})
+				}
+			}
+		}
+	}
+	// listings longer than the largest page the server picks by itself (10000): every client page size
+	// around that number, with and without Link headers, from the start and from a start point
+	for _, kind := range []string{"tags", "repos"} {
+		for _, ps := range []int{-1, 4000, 10000, 10001, 20000} {
+			for _, omit := range []bool{false, true} {
+				for _, after := range []string{"", "t00002"} {
+					if !thorough && (kind == "repos" && ps != 10001 || after != "" && ps != 20000) {
+						continue
+					}
+					out = append(out, c05Case{Kind: kind, Stack: "http1", Gen: 10003, ClientN: ps, OmitLink: omit, After: after, ErrAfter: -1})
 				}
 			}
 		}
